@@ -924,3 +924,30 @@ func (v *inviteDirect) UnmarshalXML(d *xml.Decoder, start xml.StartElement) erro
 func (v *inviteMediated) UnmarshalXML(d *xml.Decoder, start xml.StartElement) error {
 	return v.Invitation.UnmarshalXML(d, start)
 }
+
+// binContentIDCase: bin.Data.ContentID for every defined hash (and the zero hash): no panic,
+// and the result is the cid URL of the hash of the data: `cid:<name>+<hex of the sum>@bob.xmpp.org`.
+func binContentIDCase(c *ctx) {
+	r := c.r
+	line := "val bin.Data.ContentID 0 0"
+	r.Line(line, "-")
+	lines := []string{r.Prop + " " + line}
+	r.Case(line, true, "corpus/bin.Data.ContentID")
+	for _, h := range []crypto.Hash{crypto.SHA1, crypto.SHA224, crypto.SHA256, crypto.SHA384, crypto.SHA512, crypto.SHA3_256, crypto.SHA3_512, crypto.BLAKE2b_256, crypto.BLAKE2b_512} {
+		for _, data := range [][]byte{nil, []byte("A"), []byte("<&>\x00\xff")} {
+			d := &bin.Data{Data: data}
+			var got string
+			p := guard("ContentID", func() ([]byte, []xml.Token, error) { got = d.ContentID(h); return nil, nil, nil })
+			if p.panicked != "" {
+				r.Fail("no-panic", "bin.Data/ContentID/"+panicClass(p.panicked), lines, fmt.Sprintf("ContentID(%v) panicked: %s", h, p.panicked))
+				continue
+			}
+			hh := h.New()
+			hh.Write(data)
+			want := fmt.Sprintf("cid:%s+%x@bob.xmpp.org", strings.ReplaceAll(h.String(), "-", ""), hh.Sum(nil))
+			if got != want {
+				r.Fail("roundtrip", "bin.Data/ContentID", lines, fmt.Sprintf("ContentID(%v) of %q = %q, want %q", h, data, got, want))
+			}
+		}
+	}
+}
